@@ -5,7 +5,7 @@ import vlib
 
 ALLVALS = {"etag", "lm", "both", "none", "weak"}
 BASE = dict(NRes=2, NClients=3, Forms="<- AllForms", FormStorable="<- StorableTab", FormLife="<- LifeTab", ValKinds=ALLVALS,
-            DefaultAge=3, IgnoreCC=False, ForceDefault=False, MaxVer=3, MaxNow=12, MaxX=8,
+            DefaultAge=3, IgnoreCC=False, ForceDefault=False, Retry416=False, MaxVer=3, MaxNow=12, MaxX=8,
             Kinds={"get", "range", "head"}, Conds={"none", "inm", "ims", "bad"})
 
 
@@ -35,6 +35,15 @@ def flight_families():
     return f
 
 
+def retry_families():
+    """retry_on_range_416 (the shipped default): range requests whose first answer is 416 are retried without Range"""
+    f = []
+    for be in ("memory", "file"):
+        f.append(fam("px_%s_retry416" % be, backend=be, depth=30, genforms="SmallForms", NRes=1, NClients=2, Kinds={"get", "range"},
+                     Conds={"none", "inm"}, Retry416=True, MaxX=10))
+    return f
+
+
 def reval_families():
     f = []
     for be in ("memory", "file"):
@@ -44,6 +53,10 @@ def reval_families():
 
 
 # trace categories are property ids already
+def all_families():
+    return policy_families() + flight_families() + reval_families() + retry_families()
+
+
 def run_family(f, num, seed, keep=None):
     consts = dict(f["consts"])
     gen_cfg = vlib.cfg_text(dict(consts, Depth=f["depth"], GenForms="<- " + f["genforms"], GenVals=f["genvals"]),
@@ -55,7 +68,7 @@ def run_family(f, num, seed, keep=None):
 def driver_config(f):
     c = f["consts"]
     return {"backend": f["backend"], "ignoreCC": c["IgnoreCC"], "forceDefault": c["ForceDefault"], "defaultAge": c["DefaultAge"],
-            "bodyLen": f["bodylen"], "retry416": False, "watchdogMs": 1500}
+            "bodyLen": f["bodylen"], "retry416": c.get("Retry416", False), "watchdogMs": 1500}
 
 
 def replay_and_validate(f, hists, inp=None):
